@@ -11,7 +11,10 @@ EXPLANATION = ("Decides narrow structural clauses of C14, not the equality of th
                "`last_was_cr` was consumed at the start of a chunk it is cleared on every path before the scan loop; it is set only on the arm "
                "that handles a CR in the last position of a chunk; (4) every site that canonicalises signed document data selects it by the "
                "signature type being Text and targets CRLF (sign and verify side alike); (5) the in-memory and reader canonicalisers share one "
-               "replace_newlines. Not decided: window-boundary behaviour of NormalizedReader::cleanup_buffer, chunking independence.")
+               "replace_newlines; (6) the streaming hasher copies chunk data only whole or up to the position its scan reported; (7) the window reader "
+               "examines the octet carried over from the previous window on every path, holds back only a CR that ends a full window, settles it "
+               "with CR, takes it before the window is refilled, and every successful fill goes through cleanup_buffer. Not decided: equality of "
+               "the three canonicalisers on all inputs and chunkings.")
 ASSUMPTIONS = ["DynDigest::update is the only way octets reach the digest", "memchr-based replace_newlines is the single batch routine"]
 
 NH = 'util::NormalizingHasher::'
